@@ -350,7 +350,7 @@ impl TableLookup {
         ensures r.target_id == target_id, r.will_announce == will_announce, r.id_generator.action_id == id_generator.action_id, !r.in_endgame,
             r.announce_tokens@.len() == 0, // @C03.new_search_knows_no_token
             outstanding_ids_ok(r), // @C03.outstanding_ids_belong_to_this_search
-            marks_ok(old(tr).ev.push(Ev::LookupStart(target_id, will_announce)), final(tr).ev, true), // @C10.every_query_sent_is_recorded_on_the_queried_record
+            marks_ok(old(tr).ev.push(Ev::LookupStart(target_id, will_announce)), final(tr).ev, true), // @C10.every_query_sent_is_recorded_on_the_queried_record @C12.a_query_we_send_is_never_recorded_as_a_query_received
             !r.recv_values, // @C02.the_end_game_sweep_is_never_switched_off
             // C04: a new search is either finished at once (no good node could be asked) or kept going by pending timeouts
             wake_ok(r, *final(timer), None), // @C04.every_outstanding_query_has_a_pending_timeout
@@ -448,7 +448,7 @@ impl TableLookup {
         requires old(timer).wf()
         ensures only_requests_and_yields(old(tr).ev, final(tr).ev), no_yield(old(tr).ev, final(tr).ev), // @C03.request_round_only_queries
             outstanding_ids_ok(*old(self)) ==> outstanding_ids_ok(*final(self)), // @C03.outstanding_ids_belong_to_this_search
-            marks_ok(old(tr).ev, final(tr).ev, true), // @C10.every_query_sent_is_recorded_on_the_queried_record
+            marks_ok(old(tr).ev, final(tr).ev, true), // @C10.every_query_sent_is_recorded_on_the_queried_record @C12.a_query_we_send_is_never_recorded_as_a_query_received
             final(self).recv_values == old(self).recv_values, // @C02.the_end_game_sweep_is_never_switched_off
             // C04: every query registered by the round owns a pending 1.5 s timeout; older queries keep theirs; nobody else's timer entry is touched
             wake_ok(*old(self), *old(timer), None) ==> wake_ok(*final(self), *final(timer), None), // @C04.every_outstanding_query_has_a_pending_timeout
@@ -476,7 +476,7 @@ impl TableLookup {
         loop
             invariant only_requests_and_yields(ev0, tr.ev), no_yield(ev0, tr.ev), // @C03.request_round_only_queries
                 outstanding_ids_ok(*old(self)) ==> outstanding_ids_ok(*self), // @C03.outstanding_ids_belong_to_this_search
-                marks_ok(ev0, tr.ev, true), // @C10.every_query_sent_is_recorded_on_the_queried_record
+                marks_ok(ev0, tr.ev, true), // @C10.every_query_sent_is_recorded_on_the_queried_record @C12.a_query_we_send_is_never_recorded_as_a_query_received
                 self.recv_values == old(self).recv_values, // @C02.the_end_game_sweep_is_never_switched_off
                 timer.wf(), timer.next_id >= old(timer).next_id,
                 wake_ok(*old(self), *old(timer), None) ==> wake_ok(*self, *timer, None), // @C04.every_outstanding_query_has_a_pending_timeout
@@ -591,7 +591,7 @@ impl TableLookup {
         requires old(timer).wf()
         ensures only_requests_and_yields(old(tr).ev, final(tr).ev), no_yield(old(tr).ev, final(tr).ev), // @C03.endgame_round_only_queries
             outstanding_ids_ok(*old(self)) ==> outstanding_ids_ok(*final(self)), // @C03.outstanding_ids_belong_to_this_search
-            marks_ok(old(tr).ev, final(tr).ev, true), // @C10.every_query_sent_is_recorded_on_the_queried_record
+            marks_ok(old(tr).ev, final(tr).ev, true), // @C10.every_query_sent_is_recorded_on_the_queried_record @C12.a_query_we_send_is_never_recorded_as_a_query_received
             final(self).recv_values == old(self).recv_values, // @C02.the_end_game_sweep_is_never_switched_off
             // C04: entering the end-game schedules the 1.5 s end-game timeout of this search that will finish it
             final(self).in_endgame && wake_ok(*final(self), *final(timer), None), // @C04.end_game_has_a_pending_timeout
@@ -625,7 +625,7 @@ impl TableLookup {
             loop
                 invariant only_requests_and_yields(ev0, tr.ev), no_yield(ev0, tr.ev), // @C03.endgame_round_only_queries
                     outstanding_ids_ok(*old(self)) ==> outstanding_ids_ok(*self), // @C03.outstanding_ids_belong_to_this_search
-                    marks_ok(ev0, tr.ev, true), // @C10.every_query_sent_is_recorded_on_the_queried_record
+                    marks_ok(ev0, tr.ev, true), // @C10.every_query_sent_is_recorded_on_the_queried_record @C12.a_query_we_send_is_never_recorded_as_a_query_received
                 self.recv_values == old(self).recv_values, // @C02.the_end_game_sweep_is_never_switched_off
                     self.in_endgame, *timer == tm1,
                     no_new_refresh(*old(timer), *timer),
@@ -717,7 +717,7 @@ impl TableLookup {
             old(self).active_lookups@.contains_key(*trans_id) ==> final(self).announce_tokens@ == (if msg.token is Some { old(self).announce_tokens@.insert(node.handle, msg.token->0) } else { old(self).announce_tokens@ }), // @C03.latest_token_recorded_under_responder @C01.latest_token_recorded_under_responder @C02.latest_token_recorded_under_responder
             no_replies(old(tr).ev, final(tr).ev), only_requests_and_yields(old(tr).ev, final(tr).ev), // @C05.responses_never_answered
             outstanding_ids_ok(*old(self)) ==> outstanding_ids_ok(*final(self)), // @C03.outstanding_ids_belong_to_this_search
-            marks_ok(old(tr).ev, final(tr).ev, true), // @C10.every_query_sent_is_recorded_on_the_queried_record
+            marks_ok(old(tr).ev, final(tr).ev, true), // @C10.every_query_sent_is_recorded_on_the_queried_record @C12.a_query_we_send_is_never_recorded_as_a_query_received
             final(self).recv_values == old(self).recv_values, // @C02.the_end_game_sweep_is_never_switched_off
             // C04: the search reports Completed only when no query is outstanding and no end-game is running; as long as it goes on it cannot get stuck
             res == status_of(*final(self)), // @C04.completed_only_without_outstanding_query_and_outside_the_end_game
@@ -807,7 +807,8 @@ impl TableLookup {
                 let mut vx_i: usize = 0;
                 while vx_i < nodes.len()
                     invariant vx_i <= nodes.len(),
-                        tr.ev == ev0 && self.announce_tokens == tok_m && self.active_lookups == act_m && *timer == tm_c, // @C03.node_selection_touches_only_the_candidate_list
+                        tr.ev == ev0 && self.announce_tokens == tok_m, // @C03.node_selection_touches_only_the_candidate_list
+                        self.active_lookups == act_m && *timer == tm_c, // @C04.node_selection_keeps_outstanding_queries_and_timeouts
                     decreases nodes.len() - vx_i,
                 {
                     let node = nodes[vx_i];
@@ -823,7 +824,8 @@ impl TableLookup {
                 let mut vx_i: usize = 0;
                 while vx_i < nodes.len()
                     invariant vx_i <= nodes.len(),
-                        tr.ev == ev0 && self.announce_tokens == tok_m && self.active_lookups == act_m && *timer == tm_c, // @C03.node_selection_touches_only_the_candidate_list
+                        tr.ev == ev0 && self.announce_tokens == tok_m, // @C03.node_selection_touches_only_the_candidate_list
+                        self.active_lookups == act_m && *timer == tm_c, // @C04.node_selection_keeps_outstanding_queries_and_timeouts
                     decreases nodes.len() - vx_i,
                 {
                     let node = nodes[vx_i];
@@ -880,7 +882,7 @@ impl TableLookup {
                 self.announce_tokens == ann1, // @C03.latest_token_recorded_under_responder @C01.latest_token_recorded_under_responder @C02.latest_token_recorded_under_responder
                  self.will_announce == old(self).will_announce, self.target_id == old(self).target_id, self.this_node_id == old(self).this_node_id,
                 *timer == tm1, self.id_generator.action_id == old(self).id_generator.action_id, extends(ev1, tr.ev),
-                marks_ok(ev0, tr.ev, true), // @C10.every_query_sent_is_recorded_on_the_queried_record
+                marks_ok(ev0, tr.ev, true), // @C10.every_query_sent_is_recorded_on_the_queried_record @C12.a_query_we_send_is_never_recorded_as_a_query_received
                 forall|i: int| ev1.len() <= i < tr.ev.len() ==> !(#[trigger] tr.ev[i] is Send),
         {
             let ghost k = it.index@;
@@ -913,7 +915,7 @@ impl TableLookup {
             !old(self).active_lookups@.contains_key(*trans_id) ==> final(tr).ev == old(tr).ev && *final(timer) == *old(timer) && final(self).active_lookups@ == old(self).active_lookups@, // @C03.unknown_timeout_changes_nothing
             only_requests_and_yields(old(tr).ev, final(tr).ev), no_yield(old(tr).ev, final(tr).ev), // @C03.timeouts_yield_nothing
             outstanding_ids_ok(*old(self)) ==> outstanding_ids_ok(*final(self)), // @C03.outstanding_ids_belong_to_this_search
-            marks_ok(old(tr).ev, final(tr).ev, true), // @C10.every_query_sent_is_recorded_on_the_queried_record
+            marks_ok(old(tr).ev, final(tr).ev, true), // @C10.every_query_sent_is_recorded_on_the_queried_record @C12.a_query_we_send_is_never_recorded_as_a_query_received
             final(self).recv_values == old(self).recv_values, // @C02.the_end_game_sweep_is_never_switched_off
             // C04: `trans_id` is the query whose timeout has just fired (the fired entry is gone from the timer)
             res == status_of(*final(self)), // @C04.completed_only_without_outstanding_query_and_outside_the_end_game
@@ -962,7 +964,7 @@ impl TableLookup {
             // (latest recorded) token, the searched info-hash, our id, the configured port and an 8-byte transaction id of this search
             forall|i: int| old(tr).ev.len() <= i < final(tr).ev.len() && #[trigger] final(tr).ev[i] is Send ==> announce_ok(*old(self), port, final(tr).ev[i]), // @C03.announce_only_to_token_holders_with_their_token @C01.announce_only_to_token_holders_with_their_token @C02.announce_only_to_token_holders_with_their_token
             only_requests_and_yields(old(tr).ev, final(tr).ev), no_yield(old(tr).ev, final(tr).ev), // @C03.finishing_yields_nothing
-            marks_ok(old(tr).ev, final(tr).ev, true), // @C10.every_query_sent_is_recorded_on_the_queried_record
+            marks_ok(old(tr).ev, final(tr).ev, true), // @C10.every_query_sent_is_recorded_on_the_queried_record @C12.a_query_we_send_is_never_recorded_as_a_query_received
             (forall|h: NodeHandle| #[trigger] old(self).announce_tokens@.contains_key(h) ==> old(self).announce_tokens@[h]@.len() <= 1300) ==> forall|i: int| old(tr).ev.len() <= i < final(tr).ev.len() && #[trigger] final(tr).ev[i] is Send ==> blen(final(tr).ev[i]->Send_0) <= 1500, // @C17.announce_queries_fit_1500_bytes_when_the_remote_token_is_at_most_1300_bytes
             // the unconditional statement (recorded known finding: a token of 1366..1435 bytes arrives in a response that fits 1500 bytes, the announce echoing it does not)
             (forall|h: NodeHandle| #[trigger] old(self).announce_tokens@.contains_key(h) ==> 60 + bstr(old(self).announce_tokens@[h]@.len() as nat) <= 1500) ==> forall|i: int| old(tr).ev.len() <= i < final(tr).ev.len() && #[trigger] final(tr).ev[i] is Send ==> blen(final(tr).ev[i]->Send_0) <= 1500, // @C17.announce_queries_fit_1500_bytes
@@ -988,7 +990,7 @@ impl TableLookup {
                     self.id_generator.action_id == old(self).id_generator.action_id,
                     forall|i: int| ev0.len() <= i < tr.ev.len() && #[trigger] tr.ev[i] is Send ==> announce_ok(*old(self), port, tr.ev[i]),
                     only_requests_and_yields(ev0, tr.ev), no_yield(ev0, tr.ev),
-                    marks_ok(ev0, tr.ev, true), // @C10.every_query_sent_is_recorded_on_the_queried_record
+                    marks_ok(ev0, tr.ev, true), // @C10.every_query_sent_is_recorded_on_the_queried_record @C12.a_query_we_send_is_never_recorded_as_a_query_received
                     (forall|h: NodeHandle| #[trigger] old(self).announce_tokens@.contains_key(h) ==> old(self).announce_tokens@[h]@.len() <= 1300) ==> forall|i: int| ev0.len() <= i < tr.ev.len() && #[trigger] tr.ev[i] is Send ==> blen(tr.ev[i]->Send_0) <= 1500, // @C17.announce_queries_fit_1500_bytes_when_the_remote_token_is_at_most_1300_bytes
                     (forall|h: NodeHandle| #[trigger] old(self).announce_tokens@.contains_key(h) ==> 60 + bstr(old(self).announce_tokens@[h]@.len() as nat) <= 1500) ==> forall|i: int| ev0.len() <= i < tr.ev.len() && #[trigger] tr.ev[i] is Send ==> blen(tr.ev[i]->Send_0) <= 1500, // @C17.announce_queries_fit_1500_bytes
             {
